@@ -17,8 +17,9 @@
   for them (listed in the header of Extracted/Collector.lean; each aborts a snapshot on the real code, probe
   notes/probes/p20_c06_assumed_not_to_raise.py): `type(o).__name__` / `str(type(o))` under a hostile metaclass; `startswith`
   / slicing of a key that is an instance of a str SUBCLASS overriding them; `len` / slicing of the text `str(o)` returns when
-  that is an instance of a str subclass; iteration / lookup of an exact dict whose key's `__hash__` raises after insertion
-  (the code then records the dict without children; the model lists them).
+  that is an instance of a str subclass.  Iteration / lookup of an exact dict whose key's `__hash__` raises after insertion is
+  guarded in the code (dict recorded without children); `PyObj.dictItems` is defined as what that enumeration yields, empty
+  when it raises — the walker applies that guard, the model does not model it.
 
   "… and delivered": there is NO C06 theorem about delivery.  The check hands every snapshot the real collector produced to
   the real `deep.push.convert_snapshot` and requires a message (harness, `judge_wire`); conversion totality on well-formed
